@@ -2791,9 +2791,15 @@ static void build_stmt(WorkList *list, ScopeStack *scopes, ASTNode *stmt, int in
 
                 if (arm_body) {
                     if (arm_body->type == AST_BLOCK) {
+                        /* The arm is a C block of its own: variables that need a release at scope
+                         * end (HashMap, opaque) are released here, not at the end of the function
+                         * where they are no longer declared */
+                        scope_stack_push(scopes);
                         for (int j = 0; j < arm_body->as.block.count; j++) {
                             build_stmt(list, scopes, arm_body->as.block.statements[j], indent + 3, env, fn_registry);
                         }
+                        scope_emit_cleanup(scopes, list, indent + 3);
+                        scope_stack_pop(scopes);
                     } else {
                         emit_indent_item(list, indent + 3);
                         build_expr(list, arm_body, env);
